@@ -60,7 +60,7 @@ def gen_component(rng: random.Random, kind: str, maxlen=8, escapes=True) -> str:
         elif not escapes:
             out.append(rng.choice("abc/%"))
         elif r < 0.60:
-            out.append(_esc(rng.choice(NONASCII).encode(), rng))
+            out.append(_esc(rng.choice(NONASCII.replace("℀", "") if kind == "user" else NONASCII).encode(), rng))
         elif r < 0.70:
             out.append(_esc(rng.choice(RESERVED[kind] + "%% /?#&=+:@\x00\x1f\x7f\t\n").encode(), rng))
         elif r < 0.78:
@@ -186,17 +186,20 @@ def rec_env(c: dict) -> dict:
     from werkzeug.datastructures import MultiDict
     from werkzeug.test import EnvironBuilder
     from werkzeug.wrappers import Request
+    from werkzeug.wsgi import get_current_url
 
     host = c["hostA"] if c["use_ascii_host"] else c["hostU"]
     base = f"{c['scheme']}://{host}{':' + c['port'] if c['port'] else ''}{c['root']}/"
     given = MultiDict([tuple(p) for p in c["pairs"]])
-    out = {"rpath": "", "rhost": "", "rurl": "", "rroot": ""}
+    out = {"rpath": "", "rhost": "", "rurl": "", "rroot": "", "wurl": "", "rbase": ""}
     rargs, err = [], ""
     try:
         b = EnvironBuilder(path=c["path"], base_url=base, query_string=given)
         try:
-            req = Request(b.get_environ())
-            out = {"rpath": req.path, "rhost": req.host, "rurl": req.url, "rroot": req.root_path}
+            env = b.get_environ()
+            req = Request(env)
+            out = {"rpath": req.path, "rhost": req.host, "rurl": req.url, "rroot": req.root_path,
+                   "wurl": get_current_url(env), "rbase": req.base_url}
             rargs = list(req.args.items(multi=True))
         finally:
             b.close()
